@@ -188,9 +188,9 @@ class StmtMixin:
                 self.fail(z3.And(0 <= i, i < n), "IndexError", "list assignment index out of range", tgt)
                 new = sym.list_mk(ty.elem, n, z3.Store(sym.list_arr(base), i, sym.coerce(val, ty.elem).t))
             elif isinstance(ty, TDict):
-                k = sym.coerce(idx, ty.k)
-                new = sym.dict_mk(ty, z3.Store(sym.dict_dom(base), k.t, True), z3.Store(sym.dict_val(base), k.t, sym.coerce(val, ty.v).t))
-                self.dict_mutate(tgt.value, base, new, env, "store", k.t, val)
+                k_t = self.dict_key(ty, idx)
+                new = sym.dict_mk(ty, z3.Store(sym.dict_dom(base), k_t, True), z3.Store(sym.dict_val(base), k_t, sym.coerce(val, ty.v).t))
+                self.dict_mutate(tgt.value, base, new, env, "store", k_t, val)
                 return
             elif ty == TBytes:
                 n = sym.bytes_len(base)
@@ -281,9 +281,9 @@ class StmtMixin:
                     raise Unsupported("del slice of %s" % base.ty)
                 idx = self.evalv(tgt.slice, env)
                 if isinstance(base.ty, TDict):
-                    k = sym.coerce(idx, base.ty.k)
-                    self.fail(z3.Select(sym.dict_dom(base), k.t), "KeyError", "del missing key", tgt)
-                    self.dict_mutate(tgt.value, base, sym.dict_mk(base.ty, z3.Store(sym.dict_dom(base), k.t, False), sym.dict_val(base)), env, "delete", k.t)
+                    k_t = self.dict_key(base.ty, idx)
+                    self.fail(z3.Select(sym.dict_dom(base), k_t), "KeyError", "del missing key", tgt)
+                    self.dict_mutate(tgt.value, base, sym.dict_mk(base.ty, z3.Store(sym.dict_dom(base), k_t, False), sym.dict_val(base)), env, "delete", k_t)
                     continue
                 if isinstance(base.ty, TList):
                     self.mutate(tgt.value, base, self.list_pop(base, sym.as_int(idx), tgt)[0], env)
@@ -695,6 +695,10 @@ class StmtMixin:
             return
         node = ast.parse(loc, mode="eval").body
         if isinstance(node, ast.Name):
+            if node.id not in env.locals:
+                # (C19) a local that is not bound yet on this path (bound on other paths before the loop, e.g. `waiter` in
+                # protocol._process_events): nothing to forget
+                return
             old = env.locals[node.id]
             env.locals[node.id] = sym.fresh(old.ty, self.ctx.fresh_name(node.id))
             return
